@@ -275,3 +275,24 @@ func init() {
 		return writeJSONL(args[1], out)
 	})
 }
+
+func init() {
+	// pos-order <in.jsonl> <out.jsonl>: {a:[l,c], b:[l,c]} -> real Pos.IsBefore
+	register("pos-order", func(args []string) error {
+		type vec struct {
+			A      [2]int `json:"a"`
+			B      [2]int `json:"b"`
+			Before bool   `json:"before"`
+		}
+		in, err := readJSONL[vec](args[0])
+		if err != nil {
+			return err
+		}
+		for i := range in {
+			pa := &actionlint.Pos{Line: in[i].A[0], Col: in[i].A[1]}
+			pb := &actionlint.Pos{Line: in[i].B[0], Col: in[i].B[1]}
+			in[i].Before = pa.IsBefore(pb)
+		}
+		return writeJSONL(args[1], in)
+	})
+}
